@@ -853,10 +853,10 @@ func c01AlignTwoSteps(cfg c01Cfg, first, second []int) {
 
 // H_C01_step_add: prefix of insertions under each duplicate-name policy, then one more
 // AddSequence (right or wrong length), Append of a second alignment, or Clear.
-// bounds: k<=3 prefix insertions, names from the 6-name colliding pool, L in 1..2, residues printable ASCII, policy in {NONE,NAME,SEQUENCE}
+// bounds: k<=2 prefix insertions (k<=3 and the 6-name pool in H_C01_step_add_deep), small pool {a,b,a_0001}, L in 1..2, residues printable ASCII, policy in {NONE,NAME,SEQUENCE}
 // outside: k>3, L>2, names outside the pool, comments
 func H_C01_step_add() {
-	c01AlignStep(c01Cfg{true, AMINOACIDS, c01Small, 0, 3, 1, 2, c01GenPrintable},
+	c01AlignStep(c01Cfg{true, AMINOACIDS, c01Small, 0, 2, 1, 2, c01GenPrintable},
 		[]int{c01OpAdd, c01OpAppend, c01OpClear})
 }
 
@@ -901,9 +901,18 @@ func H_C01_step_names_deep() {
 }
 
 // H_C01_step_regexp: prefix, then RenameRegexp (a->b, cut at '_', prefix p, malformed) or CleanNames.
-// bounds: k<=3 prefix insertions, 6-name pool, L=1, residues printable ASCII
+// bounds: k<=2 prefix insertions (k<=3 in H_C01_step_regexp_deep), 6-name pool, L=1, residues printable ASCII
 // outside: other regular expressions; names with adjacent special characters (documentation does not say whether a run gives one '-')
 func H_C01_step_regexp() {
+	c01AlignStep(c01Cfg{true, AMINOACIDS, c01Pool, 0, 2, 1, 1, c01GenPrintable},
+		[]int{c01OpRenameRegexp, c01OpCleanNames})
+}
+
+// H_C01_step_regexp_deep: H_C01_step_regexp with up to three rows.
+// bounds: k<=3 prefix insertions, 6-name pool, L=1, residues printable ASCII
+// outside: other regular expressions; names with adjacent special characters
+//verif: tier=thorough
+func H_C01_step_regexp_deep() {
 	c01AlignStep(c01Cfg{true, AMINOACIDS, c01Pool, 0, 3, 1, 1, c01GenPrintable},
 		[]int{c01OpRenameRegexp, c01OpCleanNames})
 }
@@ -926,17 +935,25 @@ func H_C01_step_order_deep() {
 }
 
 // H_C01_step_dedup: prefix, then Deduplicate (with and without N/X-as-gap).
-// bounds: k<=3 prefix insertions, small pool, L in 1..2, residues printable ASCII
+// bounds: k<=2 prefix insertions (k<=3 in H_C01_step_dedup_deep), small pool, L in 1..2, residues printable ASCII
 // outside: k>3, L>2 (C13 looks at deeper shapes)
 func H_C01_step_dedup() {
+	c01AlignStep(c01Cfg{true, NUCLEOTIDS, c01Small, 0, 2, 1, 2, c01GenPrintable}, []int{c01OpDedup})
+}
+
+// H_C01_step_dedup_deep: H_C01_step_dedup with up to three rows.
+// bounds: k<=3 prefix insertions, small pool, L in 1..2, residues printable ASCII
+// outside: k>3, L>2
+//verif: tier=thorough
+func H_C01_step_dedup_deep() {
 	c01AlignStep(c01Cfg{true, NUCLEOTIDS, c01Small, 0, 3, 1, 2, c01GenPrintable}, []int{c01OpDedup})
 }
 
 // H_C01_step_rmseqs: prefix, then RemoveGapSeqs or RemoveCharacterSeqs.
-// bounds: k<=3 prefix insertions, small pool, L in 1..2, residues printable ASCII, cutoff in {0, 0.5, 1}, character any printable byte
-// outside: ignoreCase/ignoreGaps/ignoreNs variants (C12)
+// bounds: k<=3 prefix insertions, names {a,b}, L in 1..2, residues printable ASCII, cutoff in {0, 0.5, 1}, character any printable byte
+// outside: ignoreCase/ignoreGaps/ignoreNs variants and other cutoffs (C12)
 func H_C01_step_rmseqs() {
-	c01AlignStep(c01Cfg{true, NUCLEOTIDS, c01Small, 0, 3, 1, 2, c01GenPrintable},
+	c01AlignStep(c01Cfg{true, NUCLEOTIDS, c01Small[:2], 0, 3, 1, 2, c01GenPrintable},
 		[]int{c01OpRemoveGapSeqs, c01OpRemoveCharSeqs})
 }
 
@@ -967,22 +984,44 @@ func H_C01_step_translate() {
 // sort, rename then concat, clear then add, filter then add, deduplicate then lookup, ...),
 // post-state check after each. A history stops after a step that the model cannot follow
 // (unspecified state after an error, duplicate names created by the caller).
-// bounds: k<=2 prefix insertions, small pool {a,b,a_0001}, L in 1..2, residues printable ASCII, lean argument variants (first variants of every operation, see c01Pick)
+// bounds: k<=2 prefix insertions, names {a,b}, L in 1..2, residues printable ASCII, lean argument variants (first variants of every operation, see c01Pick)
 // outside: histories longer than 2, k>2, Translate as a successful step (needs nucleotides: H_C01_two_steps_translate)
 //verif: tier=thorough
 func H_C01_two_steps() {
-	c01AlignTwoSteps(c01Cfg{true, NUCLEOTIDS, c01Small, 0, 2, 1, 2, c01GenPrintable}, c01AllOps(), c01AllOps())
+	c01AlignTwoSteps(c01Cfg{true, NUCLEOTIDS, c01Small[:2], 0, 2, 1, 2, c01GenPrintable}, c01AllOps(), c01AllOps())
 }
 
 // c01Observers: the operations that depend most on name index and cached length.
-var c01Observers = []int{c01OpAdd, c01OpConcat, c01OpSort, c01OpDedup, c01OpClone, c01OpRemoveGapSites, c01OpTrimSeqs}
+var c01Observers = []int{c01OpAdd, c01OpConcat, c01OpSort, c01OpDedup, c01OpClone}
 
 // H_C01_two_steps_quick: quick-tier slice of H_C01_two_steps: any first operation, then one of
-// AddSequence, Concat, Sort, Deduplicate, Clone, RemoveGapSites, TrimSequences.
+// AddSequence, Concat, Sort, Deduplicate, Clone.
 // bounds: k<=1 prefix insertions, names {a,b}, L in 1..2, residues printable ASCII, lean argument variants
 // outside: see H_C01_two_steps
 func H_C01_two_steps_quick() {
 	c01AlignTwoSteps(c01Cfg{true, NUCLEOTIDS, c01Small[:2], 0, 1, 1, 2, c01GenPrintable}, c01AllOps(), c01Observers)
+}
+
+// H_C01_rename_then: a renaming operation (Rename, RenameRegexp, AppendSeqIdentifier, CleanNames,
+// TrimNames, TrimNamesAuto) followed by an operation that relies on names (AddSequence, Concat,
+// Sort, Clone, Deduplicate). Between the two only the index-free part of the post-state check
+// runs (rows, order, residues, iteration), after the second the full check: this shows what a
+// caller sees one operation after a renaming even when by-name lookups themselves are not used.
+// bounds: k<=2 prefix insertions, names {a, b, "a:b"}, L=1, residues printable ASCII, lean argument variants
+// outside: longer histories
+func H_C01_rename_then() {
+	c01Lean = true
+	cfg := c01Cfg{true, NUCLEOTIDS, []string{"a", "b", "a:b"}, 0, 2, 1, 1, c01GenPrintable}
+	sb, m := c01Prefix(cfg)
+	al := sb.(*align)
+	first := []int{c01OpRename, c01OpRenameRegexp, c01OpAppendId, c01OpCleanNames, c01OpTrimNames, c01OpTrimNamesAuto}
+	m.noIndex = true
+	if !c01Apply(al, m, first[nondetRange(0, len(first)-1)], cfg.pool, cfg.gen) {
+		return
+	}
+	m.noIndex = false
+	verifReach("second step")
+	c01Apply(al, m, c01Observers[nondetRange(0, len(c01Observers)-1)], cfg.pool, cfg.gen)
 }
 
 // H_C01_two_steps_translate: nucleotide prefix, Translate, then a second operation.
@@ -1078,12 +1117,19 @@ func c01BagStep(cfg c01Cfg, ops []int) {
 }
 
 // H_C01_seqbag_step: unaligned container: prefix of rows of different lengths, then FilterLength
-// (both bounds symbolic, negative = not considered), Unalign or CloneSeqBag.
-// bounds: k<=2 prefix insertions (k<=3 in H_C01_seqbag_step_deep), small pool, every row length in 0..3, residues printable ASCII, FilterLength bounds in -2..4, all three policies
+// (both bounds symbolic, negative = not considered) or CloneSeqBag.
+// bounds: k<=2 prefix insertions (k<=3 in H_C01_seqbag_step_deep), names {a,b}, every row length in 0..3, residues printable ASCII, FilterLength bounds in -2..4, all three policies
 // outside: rows longer than 3, bounds beyond 4
 func H_C01_seqbag_step() {
-	c01BagStep(c01Cfg{false, NUCLEOTIDS, c01Small, 0, 2, 0, 3, c01GenPrintable},
-		[]int{c01OpFilterLength, c01OpUnalign, c01OpClone})
+	c01BagStep(c01Cfg{false, NUCLEOTIDS, c01Small[:2], 0, 2, 0, 3, c01GenPrintable},
+		[]int{c01OpFilterLength, c01OpClone})
+}
+
+// H_C01_seqbag_step_unalign: unaligned container (rows may hold '-'), then Unalign.
+// bounds: k<=2 prefix insertions, names {a,b}, every row length in 0..2, residues printable ASCII, all three policies
+// outside: rows longer than 2 (H_C01_seqbag_step_deep: 3)
+func H_C01_seqbag_step_unalign() {
+	c01BagStep(c01Cfg{false, NUCLEOTIDS, c01Small[:2], 0, 2, 0, 2, c01GenPrintable}, []int{c01OpUnalign})
 }
 
 // H_C01_seqbag_step_deep: the same with up to three rows.
